@@ -80,7 +80,7 @@ SPECS = {
     "C02": S(profiles=[("singleton", 0.7), ("core-mix", 0.3)], projection="PExecSet",
              chk="fun c obs => chk_C02 (cs_hist c) obs",
              rule="non-trivial: some function is demanded by at least two Invokes or through two paths (>=2 Invokes and >=1 execution)"),
-    "C03": S(profiles=[("bystanders", 1.0)], projection="PExecSet",
+    "C03": S(profiles=[("bystanders", 0.7), ("decor", 0.3)], projection="PExecSet",
              chk="fun c obs => chk_C03 (cs_hist c) obs",
              rule="non-trivial: at least one accepted constructor is never executed while some Invoke succeeds"),
     "C04": S(profiles=[("gaps", 1.0)], projection="PExec",
@@ -105,7 +105,7 @@ SPECS = {
     "C10": S(profiles=[("groups", 1.0)], projection="PExec",
              chk="fun c obs => chk_C10 (cs_beh c) (cs_hist c) obs",
              rule="non-trivial: a non-soft group parameter with >=1 visible feeder was built"),
-    "C11": S(profiles=[("soft", 1.0)], projection="PExec",
+    "C11": S(profiles=[("soft", 0.8), ("groups", 0.2)], projection="PExec",
              chk="fun c obs => chk_C11 (cs_beh c) (cs_hist c) obs",
              rule="non-trivial: a soft group parameter was built while the group has >=1 registered feeder"),
     "C12": S(profiles=[("decor", 1.0)], projection="PExec",
